@@ -2,6 +2,7 @@
 #include "mon.h"
 
 #include <aws/common/allocator.h>
+#include <aws/common/error.h>
 
 #include <ctype.h>
 #include <errno.h>
@@ -1073,4 +1074,16 @@ struct mon_event *mon_ev_merge(size_t *n_out) {
 
 uint64_t mon_ev_overflowed(void) {
     return s_ev_overflow;
+}
+
+void mon_poison_last_error(struct mon_rng *r) {
+    static const int codes[] = {AWS_ERROR_INVALID_INDEX, AWS_ERROR_OOM, AWS_ERROR_LIST_EMPTY, AWS_ERROR_LIST_EXCEEDS_MAX_SIZE, AWS_ERROR_PRIORITY_QUEUE_EMPTY,
+                                AWS_ERROR_PRIORITY_QUEUE_BAD_NODE, AWS_ERROR_HASHTBL_ITEM_NOT_FOUND, AWS_ERROR_SHORT_BUFFER, AWS_ERROR_OVERFLOW_DETECTED,
+                                AWS_ERROR_INVALID_ARGUMENT, AWS_ERROR_DEST_COPY_TOO_SMALL, AWS_ERROR_INVALID_STATE, AWS_ERROR_UNSUPPORTED_OPERATION};
+    uint64_t k = mon_below(r, sizeof(codes) / sizeof(codes[0]) + 3);
+    if (k >= sizeof(codes) / sizeof(codes[0])) {
+        aws_reset_error();
+    } else {
+        aws_raise_error(codes[k]);
+    }
 }
